@@ -150,6 +150,7 @@ func selfTest(ctx *core.Ctx) error {
 		{"MC_Copier_neg_dropparms.cfg", "Shape"}, {"MC_Copier_neg_verbatim.cfg", "Shape"},
 		{"MC_Copier_neg_keynum.cfg", "Shape"}, {"MC_Copier_neg_cryptprobe.cfg", "Shape"},
 		{"MC_Copier_neg_inlinedasis.cfg", "Shape"}, {"MC_Copier_neg_boundbeforeread.cfg", "Shape"},
+		{"MC_Copier_neg_sharedbuffer.cfg", "Shape"}, {"MC_Copier_neg_sharedbufferopen.cfg", "Shape"},
 	} {
 		res, err := ctx.TLC(core.TLCOpts{Dir: "graph", Module: "MC_Copier", Cfg: nc.cfg, Workers: 4, Mode: "negative-control", XssMB: 512})
 		if err != nil {
